@@ -420,7 +420,9 @@ func kdPad(v *big.Int, n int) []byte {
 	return append(make([]byte, n-len(b)), b...)
 }
 
-func kdRefPub(grp int, x *big.Int) []byte { return kdPad(kdModPow(bigN(2), x, kdPrimes[grp]), kdGroupLen[grp]) }
+func kdRefPub(grp int, x *big.Int) []byte {
+	return kdPad(kdModPow(bigN(2), x, kdPrimes[grp]), kdGroupLen[grp])
+}
 func kdRefShared(grp int, x, y *big.Int) []byte {
 	return kdPad(kdModPow(y, x, kdPrimes[grp]), kdGroupLen[grp])
 }
